@@ -25,4 +25,4 @@ Definition chain_main_tables (next : string) : tables :=
 
 Definition chain_alltables (lits : list string) (ipre : N) (next : string) : alltables :=
   mkall [] [0; 1; 2] (chain_main_tables next)
-        [(0, [(0, 1)])] [[(0, [0])]] [(0, 0, chain_sub_tables lits ipre)].
+        [(0, [(0, 1)])] [[(0, [0])]] [(0, 0, chain_sub_tables lits ipre)] [(0, [2])].
